@@ -146,7 +146,7 @@ PROPS = {
              "keeper layer on the full app: bond / unbond / jail / external-account registration / chain activation / snapshot build / on-chain activation sequences, observing FindSnapshotByID for every id after every op and the UpdateValset messages in the queue; "
              "distinct = distinct op text; non-trivial = a snapshot or valset was produced",
         trusted_base=[SDK_TRUST, "staking state and relayer-pick success are inputs of the model (observed with the real calls)"],
-        assumptions=[],
+        assumptions=["StakingWF: the staking iterator yields each validator once (SDK staking store is keyed by operator address) - used only for the each-exactly-once clause; the model itself does not deduplicate (theorem staking_assumption_needed)"],
     ),
     "C05": dict(
         lean_modules=["PalomaModel.Props.C05"],
